@@ -2192,7 +2192,7 @@ class UTPM(Ring, RawAlgorithmsMixIn):
             # allocate temporary storage
             L0inv = numpy.linalg.inv(L0)
             U0inv = numpy.linalg.inv(U0)
-            dF    = numpy.zeros((N,N),dtype=float)
+            dF    = numpy.zeros((N,N),dtype=numpy.promote_types(A.data.dtype, float))
 
             for d in range(1,D):
                 dF *= 0
